@@ -23,7 +23,7 @@ RULE = ("configs drawn from one PRNG over 15 families (calibrated linear +/- bou
         "calibrated lattice all_vertices / KFL / simplex / output calibration; ensembles explicit / random / "
         "RTL x average / linear combination x all_vertices / KFL x shared / separate calibrators; hand-assembled "
         "PWL->Lattice and PWL->Linear stacks): 2-5 features (numeric increasing / decreasing / none, spelled as "
-        "strings, ints or non-lowercase strings; categorical with list / tuple / no ordering pairs; default_value "
+        "strings, ints or non-lowercase strings; categorical with list / tuple / set / no ordering pairs; default_value "
         "on numeric and categorical features; clamps, convexity, always-monotonic, learned keypoints, unimodality, "
         "trusts, dominance where the layers allow them), 2-4 keypoints, lattice sizes 2-3, bounds none / both / "
         "one-sided. Each config x history is one case. Non-trivial = at least one constrained feature or an "
@@ -65,10 +65,13 @@ def gen_feature(rng, i, fam, allow_extras):
       if f["nb"] >= 3 and rng.random() < 0.3:
         pairs.append([nodes[0], nodes[2]])
       f["mono"] = pairs
-    elif q < 0.70:
+    elif q < 0.72:
+      # regression inputs for F-C03-e (tuple, fixed f70b866) and F-C03-f (a set: rejected by verify_config
+      # since e8dafc0 -- both sides must answer ValueError)
       nodes = list(range(f["nb"]))
       rng.shuffle(nodes)
-      f["mono"] = {"tuple": [[nodes[0], nodes[1]]]}
+      prs = [[nodes[0], nodes[1]]] + ([[nodes[1], nodes[2]]] if f["nb"] >= 3 and rng.random() < 0.5 else [])
+      f["mono"] = {("tuple" if rng.random() < 0.7 else "set"): prs}
     else:
       f["mono"] = rng.choice(["none", None, []])
     if rng.random() < 0.35:
@@ -116,7 +119,7 @@ def _dir(mono):
 
 def _pairs(mono):
   if isinstance(mono, dict):
-    return [tuple(p) for p in mono["tuple"]]
+    return [tuple(p) for p in list(mono.values())[0]]
   if isinstance(mono, list):
     return [tuple(p) for p in mono]
   return []
@@ -143,7 +146,7 @@ def gen_spec(rng, fam):
   if kind.startswith("stack"):
     for f in feats:
       if isinstance(f["mono"], dict):
-        f["mono"] = f["mono"]["tuple"]
+        f["mono"] = list(f["mono"].values())[0]
   spec = dict(family=fam, kind=kind, features=feats, out_min=None, out_max=None, out_cal=False,
               out_init=[0.0, 1.0], use_bias=False, kfl=kfl, num_terms=rng.randint(1, 3), simplex=False,
               lattices=None, num_lattices=0, rank=0, sep=True, lincomb=False, seed=rng.randint(0, 99),
@@ -217,10 +220,11 @@ def gen_spec(rng, fam):
 def gen_invalid(rng):
   """configs `verify_config` / the builders reject with ValueError (both sides must reject)."""
   which = rng.choice(["rtl_sizes", "kfl_unimod", "one_lattice", "pair_range", "numeric_list", "cat_string",
-                      "rtl_small", "lincomb_bias", "rtl_trust"])
+                      "rtl_small", "lincomb_bias", "rtl_trust", "cat_set"])
   fam = {"rtl_sizes": "ens_rtl", "kfl_unimod": "lattice_kfl", "one_lattice": "ens_explicit_avg",
          "pair_range": "lattice", "numeric_list": "lattice", "cat_string": "linear_bounded",
-         "rtl_small": "ens_rtl", "lincomb_bias": "ens_explicit_lincomb", "rtl_trust": "ens_rtl"}[which]
+         "rtl_small": "ens_rtl", "lincomb_bias": "ens_explicit_lincomb", "rtl_trust": "ens_rtl",
+         "cat_set": "ens_rtl"}[which]
   spec = gen_spec(rng, fam)
   f0 = spec["features"][0]
   if which == "rtl_sizes":
@@ -235,6 +239,8 @@ def gen_invalid(rng):
     f0.update(nb=0, mono=[[0, 1]], kps=[0.0, 1.0], conv=0, learned=False, cmin=False, cmax=False, unimod=0)
   elif which == "cat_string":
     f0.update(nb=3, mono="increasing", default=None)
+  elif which == "cat_set":
+    f0.update(nb=3, mono={"set": [[0, 1], [1, 2]]}, default=None)
   elif which == "rtl_small":
     spec["num_lattices"], spec["rank"], spec["sep"] = 2, 1, False
     while len(spec["features"]) < 3:
@@ -252,6 +258,8 @@ def gen_invalid(rng):
 # ------------------------------------------------------------------ spec -> real objects
 def py_mono(mono):
   if isinstance(mono, dict):
+    if "set" in mono:
+      return {tuple(p) for p in mono["set"]}
     return tuple(tuple(p) for p in mono["tuple"])
   if isinstance(mono, list):
     return [tuple(p) for p in mono]
@@ -390,7 +398,8 @@ def build_model(spec):
 def wire_mono(f):
   m = f["mono"]
   if isinstance(m, dict):
-    return "T" + "+".join("%d-%d" % tuple(p) for p in m["tuple"])
+    kind = list(m.keys())[0]
+    return {"tuple": "T", "set": "S"}[kind] + "+".join("%d-%d" % tuple(p) for p in m[kind])
   if isinstance(m, list):
     return "L" + "+".join("%d-%d" % tuple(p) for p in m)
   if m is None or m == 0 or (isinstance(m, str) and m.lower() == "none"):
@@ -687,22 +696,18 @@ def failure_class(model, spec, clause, feature, hist):
           return "linear_all_nonpositive"
   if feature is not None:
     f = spec["features"][feature]
-    if clause == "categorical_pair" and isinstance(f["mono"], dict):
-      return "categorical_pairs_tuple"
-    if clause == "monotone" and spec["lattices"] == "rtl" and wire_mono(f) in ("i0", "d0"):
-      return "rtl_noncanonical_spelling"
     if clause == "categorical_pair" and hist == "init":
       return "categorical_pairs_random_init"
   return "other"
 
 
 def record_fail(ctx, clause, key, case, observed, detail=""):
-  """ctx.fail keeps at most 200 failures: failures of a classified (known) class are recorded only 4 times
+  """ctx.fail keeps at most 200 failures: failures of a classified (known) class are recorded only 3 times
   per (clause, class, family) and counted beyond that, so that they can never crowd out an unclassified one."""
   if key.get("cls") != "other":
     k = "failclass:%s:%s:%s" % (clause, key.get("cls"), key.get("model"))
     ctx.count(k)
-    if ctx.dist[k] > 4:
+    if ctx.dist[k] > 3:
       return
   ctx.fail(clause, key, case, observed, detail)
 
@@ -924,7 +929,6 @@ def replay(ctx, failure):
   spec, hist = case["spec"], case["history"]
   model, real = run_case(ctx, spec, hist)
   if model is None:
-    ctx.notes.append("replay: model does not build any more: " + str(real))
-    return
+    ctx.notes.append("replay: model does not build: " + str(real))   # must then be rejected by the model too
   reply = run_driver([wire_line(spec)])[0]
   compare_graph(ctx, spec, "valid", real, reply)
